@@ -22,6 +22,7 @@ RULE = ("one run = a tape-generated class hierarchy (program, 0-2 base classes -
         "distinct = distinct (declarations, history) digests; non-trivial = at least 3 "
         "variables and one program run")
 RULE += '; since the 4th session also per-CPU variables in sub-program classes, a second instance of the program class with another list of sub-programs, sub-program/program classes with __eq__/__hash__/__len__, refused out-of-range writes, and an unusable possible-CPU file with a pinned process (all CPUs online)'
+RULE += "; also Python stores during which a running program instance executes between the lines of the library's store, and (2 %) the layout computed in a second interpreter with another string hash seed"
 COMPONENTS = {
     "real": ["ebpfcat.arraymap.ArrayMap.collect/init/create_map, ArrayGlobalVarDesc (both "
              "branches), PerCPUArrayMap, PerCPUVar, PerCPUReader", "code generator",
